@@ -19,7 +19,7 @@ ASSUMPTIONS = ["thresholds: |z| <= 6.5 for means / covariances / proportions (fa
                "valid proportions are dyadic so that their floating-point sum is exactly 1 (the code tests equality)"]
 EVAL_COUNTER = "calls"
 REQUIRED = {"quick": {"calls": 60, "gmm_calls": 25, "gmm_1d_calls": 5, "student_calls": 8, "gstm_calls": 6, "celeux_one_calls": 6,
-                      "celeux_two_calls": 6, "z_tests": 1500, "ks_tests": 30, "invalid_rejected": 12, "indefinite_covariances_tried": 40, "determinism_checks": 60, "gmm_other_unit_calls": 3, "gmm_tiny_unit_calls": 2, "rare_component_calls": 100, "rare_calls_with_a_skipped_inner_component": 20},
+                      "celeux_two_calls": 6, "z_tests": 1500, "ks_tests": 20, "invalid_rejected": 12, "indefinite_covariances_tried": 40, "determinism_checks": 60, "gmm_other_unit_calls": 3, "gmm_tiny_unit_calls": 2, "rare_component_calls": 100, "rare_calls_with_a_skipped_inner_component": 20},
             "thorough": {"calls": 500, "z_tests": 12000}}
 SHARD_TIMEOUT = {"quick": 1200, "thorough": 7000}
 ZMAX = 6.5
